@@ -15,10 +15,18 @@ UNBOUNDED_TAKE = 12
 _PARSER = TimeRecurrenceParser(TimePointParser(assumed_time_zone=(0, 0)), DurationParser())
 
 
+def is_zero_interval(d):
+    """An exact interval of zero length, however it is spelled (P0Y, PT0S, P1DT-24H)."""
+    return not d.get("y") and not d.get("mo") and \
+        d.get("w", 0) * 604800 + d.get("d", 0) * 86400 + d.get("h", 0) * 3600 + d.get("mi", 0) * 60 + d.get("s", 0) == 0
+
+
 def is_exact(d):
     return not d.get("y") and not d.get("mo")
 
 
+Z_PARSERS = [TimeRecurrenceParser(TimePointParser(assumed_time_zone=(0, 0), dump_format=f_), DurationParser())
+             for f_ in ("CCYY-MM-DDThh:mm:ssZ", "CCYYMMDDThhmmssZ")]
 _PARSE_ALL = TimeRecurrenceParser(TimePointParser(num_expanded_year_digits=2, assumed_time_zone=(0, 0)), DurationParser())
 
 
@@ -34,6 +42,9 @@ def rec_text(desc):
 
 def parseable(desc):
     pts = [desc["a"]] + ([desc["s"]] if desc["fmt"] == 1 else [])
+    dv = list(desc.get("d", {}).values())
+    if any(v < 0 for v in dv) and any(v > 0 for v in dv):
+        return False          # an interval of mixed signs has no text form
     return all(p["prec"] == "hms" and p["hh"] < 24 and p.get("xd", 0) in (0, 2) and len(p.get("dec") or "") <= 6
                and ((0 <= p["y"] <= 9999) if not p.get("xd") else abs(p["y"]) <= 999999) for p in pts)
 
@@ -111,8 +122,8 @@ def rand_recurrence(rnd, m, exact=None, bounded=None, fmt=None, whole_anchor=Tru
     n = rnd.choice([1, 2, 2, 3, 4, 5, maxn]) if bounded else 0
     if exact is None:
         exact = rnd.random() < 0.6
-    if rnd.random() < 0.05:
-        d = {"s": 0}
+    if rnd.random() < 0.07:
+        d = dict(rnd.choice([{"s": 0}, {"s": 0}, {"d": 1, "h": -24}, {"h": 1, "mi": -60}, {"mi": 90, "h": -1, "s": -1800}]))
     else:
         d = dict(rnd.choice(EXACT_IV if exact else NOMINAL_IV))
     desc = {"fmt": fmt, "n": n, "a": a}
